@@ -1,4 +1,5 @@
 import Proofs.SubmitDuring
+import Proofs.SubmitFault
 
 /-!
 # C06 — every committed block reaches the DA layer in order; the watermark is sound
@@ -614,5 +615,49 @@ example : let m := (dataIterDuring xCfg twoEmpty [] (.batch [[9]] 300 []) .ok).1
     m.n.store.height = 3 ∧ m.n.dataWm = 2 ∧ (dataIter m []).1.n.dataWm = 3 ∧
     (dataIter m []).2.2.1.map (·.heights) = [[3]] := by
   decide +kernel
+
+/-! ## 7. the write that persists the watermark fails (`store.SetMetadata` error in `setLastSubmittedHeight`)
+
+The driver executes `headersIterF` / `dataIterF` (`fail=n` of the stream ops: the next `n` watermark writes fail); with no
+fault they are the functions of §1–§6. -/
+
+/-- without faults the fault-aware ticks are the ticks all theorems above are about -/
+theorem C06_no_fault_same_ticks (a : ANode) (script : List DAAns) :
+    headersIterF 0 a script = (headersIter a script, 0) ∧ dataIterF 0 a script = (dataIter a script, 0) :=
+  ⟨headersIterF_zero a script, dataIterF_zero a script⟩
+
+/-- **A failed persist keeps the in-memory watermark** (the bookkeeping step after an acknowledged acceptance, either kind,
+any node, any acknowledged height): the in-memory watermarks are exactly what they are without the fault — so never
+below their old values and, when `h` is above the old one, equal to `h`: the acknowledged items are not pending —; the
+store is untouched and nothing is written, so the persisted copy keeps its old value, which is at most the value in
+memory whenever it was before (`PLe`); marks, DA double and DA-included height as without the fault. -/
+theorem C06_failed_persist_keeps_memory_watermark (a : ANode) (d : Bool) (h : Nat) :
+    let r := (raiseWmF true a d h).1
+    wm d r = wm d (raiseWm a d h).1 ∧ wm (!d) r = wm (!d) a ∧ wm d a ≤ wm d r ∧ (wm d a < h → wm d r = h) ∧
+    r.n.store = a.n.store ∧ (raiseWmF true a d h).2 = [] ∧
+    (PLe d a → PLe d r) ∧ (PLe (!d) a → PLe (!d) r) ∧
+    marks d r = marks d a ∧ r.daBlobs = a.daBlobs ∧ r.daInc = a.daInc := by
+  intro r
+  obtain ⟨h1, h2, h3, h4, h5, h6, h7, h8⟩ := raiseWmF_fail a d h
+  have hm := raiseWm_monotone a d h
+  have hst : r.n.store = a.n.store := h3
+  have e1 : wm d r = wm d (raiseWm a d h).1 := by cases d <;> simp only [wm, r] <;> simp [h1, h2]
+  have e2 : wm (!d) r = wm (!d) a := by
+    cases d <;> simp only [wm, r, Bool.not_false, Bool.not_true] <;> simp [h1, h2, raiseWm] <;> split <;> rfl
+  have e3 : wm d a ≤ wm d r := by rw [e1]; cases d <;> simp only [wm] <;> simp [hm.1, hm.2]
+  refine ⟨e1, e2, e3, ?_, hst, h4, ?_, ?_, ?_, h7, h8⟩
+  · intro hlt; rw [e1]; cases d <;> simp only [wm] at hlt ⊢ <;> simp at hlt <;> simp [raiseWm, hlt]
+  · rintro ⟨w, hw, hle⟩; exact ⟨w, by rw [hst]; exact hw, Nat.le_trans hle e3⟩
+  · rintro ⟨w, hw, hle⟩; exact ⟨w, by rw [hst]; exact hw, by rw [e2]; exact hle⟩
+  · cases d <;> simp only [marks, r] <;> simp [h5, h6]
+
+/-- **witness: the behaviour of seeded change C06-I violates "never decreases"** — on a failed persist the in-memory
+value is put back (`Submit.rollbackTrace`: the values it takes during the call): with watermark 0 and an acknowledged
+height 3 the trace is 0, 3, 0, not monotone; the node it leaves has the acknowledged height above its watermark, the
+unchanged code's node does not -/
+theorem rollback_on_failed_persist_decreases :
+    ¬ (rollbackTrace {} false 3).Pairwise (· ≤ ·) ∧
+    (raiseWmRollback true {} false 3).1.n.hdrWm < 3 ∧ (raiseWmF true {} false 3).1.n.hdrWm = 3 := by
+  decide
 
 end Spec.C06
